@@ -166,7 +166,7 @@ SLOTS += [
     attr_slot("composeinfo", "variant.name", _ci_variants, "name", BAD_NAMES, backs=["composeinfo.Variant._validate_name"]),
     attr_slot("composeinfo", "variant.id", _ci_variants, "id", BAD_VARIANT_IDS, backs=["composeinfo.Variant._validate_id"]),
     attr_slot("composeinfo", "variant.arches-empty", _ci_variants, "arches", [set()], backs=["composeinfo.Variant._validate_arches"]),
-    Slot("composeinfo", "variant.child-arch-outside-parent", _ci_children, ["sparc", "mips", "src"], apply=_foreign_arch,
+    Slot("composeinfo", "variant.child-arch-outside-parent", _ci_children, ["sparc", "mips", "sparc64v"], apply=_foreign_arch,
          backs=["composeinfo.Variant._validate_parent_arch"]),
     Slot("composeinfo", "variant.uid-misaligned", _ci_variants, ["%(uid)sX", "Z-%(id)s", "X%(uid)s"], apply=_misalign_uid,
          backs=["composeinfo.Variant._validate_uid"]),
